@@ -31,14 +31,19 @@ func (b *buffer) currentTag() Tag {
 
 // nextTag returns the next tag in tagBuffer
 func (b *buffer) nextTag() Tag {
-	return b.tag[b.pos+1]
+	if b.pos+1 < tagMaxCount {
+		return b.tag[b.pos+1]
+	}
+	return Tag{}
 }
 
 // nextTag increments the position by 1
 func (b *buffer) advanceBuffer() Tag {
 	if b.pos < b.len {
 		b.pos++
-		return b.tag[b.pos]
+		if b.pos < tagMaxCount {
+			return b.tag[b.pos]
+		}
 	}
 	return Tag{}
 }
